@@ -464,22 +464,28 @@ def rule_dispatch(ctx):
             okk = len(call.args) >= 2 and isinstance(call.args[1], ast.Name) and call.args[1].id == "shared_memory" or \
                 any(k.arg == "shared_memory" and isinstance(k.value, ast.Name) and k.value.id == "shared_memory" for k in call.keywords)
             ctx.ob("fwd-shm", ld, call, unparse(call, 80), "module load() forwards shared_memory", okk)
-        # class loader accepts exactly its own dtype
+        # class loader accepts exactly its own dtype: every normal return decided `saved dtype == own dtype`, every path that
+        # decided otherwise raises TypeError
         load = cls.methods.get("load")
         if load is None:
             continue
-        accept = None
-        for n in walk_no_nested(load.node):
-            if isinstance(n, ast.If) and isinstance(n.test, ast.Compare) and len(n.test.ops) == 1 \
-                    and isinstance(n.test.ops[0], ast.NotEq) and any(isinstance(s, ast.Raise) for s in n.body):
-                dt = NP_DTYPES.get((dotted(n.test.comparators[0]) or "").split(".")[-1])
-                exc = [s for s in n.body if isinstance(s, ast.Raise)][0].exc
-                en = dotted(exc.func) if isinstance(exc, ast.Call) else dotted(exc)
-                accept = (dt, en, n)
-        okk = accept is not None and accept[0] is not None and accept[0].bits == bits and accept[1] == "TypeError"
-        ctx.ob("dispatch", load, accept[2] if accept else load.node, "%s.load accepts uint%s" % (cls.name, accept[0].bits if accept and accept[0] else "?"),
-               "the class loader rejects files of another counter type with TypeError", bool(okk),
-               "" if okk else "no `if dtype != np.uint%s: raise TypeError` check" % bits)
+        wl_ = F.walk(load)
+        rets = [e for e in wl_.events if e.kind == "ret" and not e.implicit]
+        raises = [e for e in wl_.events if e.kind == "raise"]
+        res = []
+        for r in rets:
+            dec = _dtype_decisions(r)
+            okk = dec.get(bits) is True and not any(pol for b_, pol in dec.items() if b_ != bits)
+            res.append((okk, "returns only when the saved counters are uint%s" % bits if okk else
+                        "a path returns a sketch without having checked that the saved counters are uint%s" % bits, fact_strs(r)))
+        rej = [e for e in raises if _dtype_decisions(e).get(bits) is False]
+        for e in rej:
+            okk = e.exc_name == "TypeError"
+            res.append((okk, "another counter type is refused with TypeError" if okk else "another counter type raises %s" % e.exc_name, fact_strs(e)))
+        if not rej:
+            res.append((False, "no `if dtype != np.uint%s: raise TypeError` check" % bits, []))
+        agg(ctx, "dispatch", load, (rej[0].node if rej else load.node), "%s.load accepts uint%s" % (cls.name, bits),
+            "the class loader rejects files of another counter type with TypeError", res)
         # the dtype member is written from a table element
         save = cls.resolve("save")
         sz = find_savez(F, save)
@@ -488,6 +494,26 @@ def rule_dispatch(ctx):
         okk = isinstance(dv, ast.Subscript) and self_attr(dv.value) == "cms"
         ctx.ob("dispatch", save, dv or save.node, "dtype=%s" % (unparse(dv) if dv is not None else "?"),
                "the dtype member is an element of the counter table (so it carries the table's dtype)", okk)
+
+
+def _dtype_decisions(ev):
+    """{bits: polarity} for the decisions `<something> == np.uintN` on the path of ev."""
+    out = {}
+    for (_, _, cc) in ev.path:
+        for c in conjuncts(cc):
+            pol = True
+            while c[0] == "not":
+                c, pol = c[1], not pol
+            if c[0] != "atom" or not (isinstance(c[1], tuple) and c[1] and c[1][0] == "cmp" and c[1][1] == "eq"):
+                continue
+            info = c[2] or {}
+            for v in (info.get("a"), info.get("b")):
+                node = getattr(v, "node", None)
+                d = dotted(node) if node is not None else None
+                dt = NP_DTYPES.get((d or "").split(".")[-1]) if d else None
+                if dt is not None and dt.kind == "uint":
+                    out[dt.bits] = pol
+    return out
 
 
 def rule_post_load(ctx):
